@@ -808,7 +808,12 @@ class ReasonForRevocation(Signature):
     @code.register(int)
     @code.register(RevocationReason)
     def code_int(self, val):
-        self._code = RevocationReason(val)
+        try:
+            self._code = RevocationReason(val)
+
+        except ValueError:
+            # private-use (100-110) and unassigned codes are legal in a signature from somebody else (RFC 4880, 5.2.3.23)
+            self._code = val
 
     @code.register(bytearray)
     def code_bytearray(self, val):
